@@ -11,8 +11,9 @@ import (
 // C10: commands pass through verbatim, in order, with their argument tokens.
 
 type C10Case struct {
-	File *File    `json:"file"`
-	Gaps []string `json:"gaps"`
+	File     *File             `json:"file"`
+	Gaps     []string          `json:"gaps"`
+	Switches map[string]string `json:"switches,omitempty"`
 }
 
 func c10Src(c *C10Case) string {
@@ -106,17 +107,42 @@ func genC10(t *rapid.T) *C10Case {
 			default:
 				c.Args = c10Args(t, consts)
 			}
+			if rapid.IntRange(0, 11).Draw(t, "endret") == 0 {
+				// end / return anywhere in the stretch: what follows is dead code but must still be emitted
+				c = &Cmd{Name: rapid.SampledFrom([]string{"end", "return"}).Draw(t, "endretname")}
+			}
+			if rapid.IntRange(0, 6).Draw(t, "inps") == 0 {
+				// the command sits in a poryswitch case (selected, fallback or not selected)
+				ps := &PSStmt{Var: "V"}
+				keys := rapid.Permutation([]string{"A", "B", "_"}).Draw(t, "pskeys")
+				for _, k := range keys[:rapid.IntRange(1, 3).Draw(t, "npskeys")] {
+					cc := &Cmd{Name: c.Name, Parens: c.Parens}
+					if len(c.Args) > 0 {
+						cc.Args = c10Args(t, consts)
+					}
+					ps.Cases = append(ps.Cases, &PSStmtCase{Key: k, Brace: rapid.Bool().Draw(t, "brace"), Body: &Block{Stmts: []*Stmt{sCmd(cc)}}})
+				}
+				hasFallback := false
+				for _, cs := range ps.Cases {
+					hasFallback = hasFallback || cs.Key == "_"
+				}
+				if !hasFallback {
+					ps.Cases = append(ps.Cases, &PSStmtCase{Key: "_", Body: &Block{Stmts: []*Stmt{sCmd(c)}}})
+				}
+				sc.Body.Stmts = append(sc.Body.Stmts, &Stmt{K: "ps", PS: ps})
+				continue
+			}
 			sc.Body.Stmts = append(sc.Body.Stmts, sCmd(c))
 		}
 		f.Tops = append(f.Tops, &Top{K: "script", Script: sc})
 	}
-	return &C10Case{File: f, Gaps: drawGaps(t, len(PrintFile(f).Toks), true)}
+	return &C10Case{File: f, Gaps: drawGaps(t, len(PrintFile(f).Toks), true), Switches: map[string]string{"V": rapid.SampledFrom([]string{"A", "B", "zz"}).Draw(t, "swv")}}
 }
 
 func checkC10(c *C10Case) *Violation {
 	st := stat("C10")
 	src := c10Src(c)
-	res := Compile(src, Opts{Optimize: true})
+	res := Compile(src, Opts{Optimize: true, Switches: c.Switches})
 	if res.Panic != nil || res.Budget {
 		return viol("crash", "%s\n--- source\n%s", res.Describe(), src)
 	}
@@ -129,10 +155,14 @@ func checkC10(c *C10Case) *Violation {
 			consts[t.Const.Name] = joinToks(t.Const.Val)
 		}
 	}
-	bind, _ := ComputeBinding(c.File, RepoFonts(), "", 0)
+	resolved, rok := Resolve(c.File, c.Switches)
+	if !rok {
+		panic("harness: C10 generator always adds a fallback case")
+	}
+	bind, _ := ComputeBinding(resolved, RepoFonts(), "", 0)
 	a := ParseAsm(res.Out)
 	nt := false
-	for _, sc := range c.File.Scripts() {
+	for _, sc := range resolved.Scripts() {
 		var want []string
 		for _, s := range sc.Body.Stmts {
 			switch s.K {
@@ -173,7 +203,10 @@ func checkC10(c *C10Case) *Violation {
 				want = append(want, line)
 			}
 		}
-		want = append(want, "\treturn")
+		// the script's own terminator: a final end/return is the terminator, otherwise a return is added
+		if n := len(sc.Body.Stmts); !(n > 0 && sc.Body.Stmts[n-1].K == "cmd" && len(sc.Body.Stmts[n-1].Cmd.Args) == 0 && (sc.Body.Stmts[n-1].Cmd.Name == "end" || sc.Body.Stmts[n-1].Cmd.Name == "return")) {
+			want = append(want, "\treturn")
+		}
 		defs := a.Labels[sc.Name]
 		if len(defs) != 1 {
 			return viol("script-label", "script %s defined %d times\n--- source\n%s--- output\n%s", sc.Name, len(defs), src, res.Out)
@@ -196,7 +229,7 @@ func TestC10_Regress(t *testing.T) { runRegress(t, "C10") }
 
 func TestC10_Commands(t *testing.T) {
 	st := stat("C10")
-	st.SetRule("straight-line scripts of 1-8 commands (names incl. multi-byte and keyword-like identifiers; no parentheses, empty parentheses, or 1-5 arguments of 1-5 tokens over identifiers, numbers incl. hex/negative/leading zero, every operator and punctuation token, non-special keywords, balanced nested parentheses with commas inside, constants, one inline text or moves() slot) interleaved with labels, printed under a random layout (arguments spread over lines, comments); the script's output block must be exactly one line per command/label, name then ', '-joined space-normalised tokens, then return. non-trivial = an argument with >= 3 tokens, nested parentheses or a negative number after another token; distinct by source text")
+	st.SetRule("straight-line scripts of 1-8 commands (names incl. multi-byte and keyword-like identifiers; no parentheses, empty parentheses, or 1-5 arguments of 1-5 tokens over identifiers, numbers incl. hex/negative/leading zero, every operator and punctuation token, non-special keywords, balanced nested parentheses with commas inside, constants, one inline text or moves() slot) interleaved with labels, with end/return anywhere (dead code after them must still be emitted) and commands inside statement poryswitch cases (selected, fallback, unselected), printed under a random layout (arguments spread over lines, comments); the script's output block must be exactly one line per command/label, name then ', '-joined space-normalised tokens, then return. non-trivial = an argument with >= 3 tokens, nested parentheses or a negative number after another token; distinct by source text")
 	st.Assume("an argument is either plain tokens or exactly one inline text / moves(); no empty arguments; command names are not keywords, 'end' or 'return'")
 	runRapid(t, "C10", "TestC10_Commands", genC10, checkC10, c10Src)
 }
